@@ -16,7 +16,7 @@ CONFIG = {
     "assumptions": [
         "model/RulesWrite.v is the hand-written model of fields.go buildField/buildProperty and summary.go mapValues; tied to the code by the regenerated switch tables and by comparing its output with the annotations the real compiler emits for every generated declaration",
         "model/Validate.v rule_sem is the declared meaning: bounds inclusive unless exclusive* = true, string length in characters, bytes length in bytes, enum membership by option name, uuid = canonical 8-4-4-4-12 text, id62 = the published pattern, required = populated (for an implicit-presence scalar: non-zero), rules apply to the value a field has (an unpopulated implicit-presence field has its zero value)",
-        "declarations come from j5s text, so integer bounds are non-negative (BCL has no negative literal); the theorems quantify over all of Z",
+        "three quarters of the compile units go through j5s text (integer bounds non-negative: BCL has no negative literal), one quarter through the source AST (lib/verifshim/scha), which also carries negative bounds and present-but-empty rules messages; the theorems quantify over all of Z",
         "the only hypothesis on the declaration is that it compiles; on the enum, that its value names are pairwise different (protobuf requires it). Integer rules with a bound outside the format's range or minimum > maximum are compile errors since 43e9b7b (before, the full statement was refuted by them)",
         "float fields and the contents of message-typed fields are outside the modelled value domain (j5 emits no constraint for them); map keys are unconstrained strings",
     ],
